@@ -28,6 +28,50 @@ MUTANTS = [
             .flat_map(|(type_, paths)| paths.iter().map(move |p| (*type_, *p)))
             .map(|(type_, field_path)| {
                 let implementations = &types_to_field_paths_vec[type_];""")]),
+  ("c09-process-wide-name-interner", ["C09"], [("src/backends/rust.rs",
+     """    let size_check_ident = quote::format_ident!("_{}_size_check", unraw(name.as_str()));
+    let size_check_impl = (size > 0).then(|| {
+        let size = hex_literal(size);
+        quote! {
+            fn #size_check_ident() {
+                unsafe {
+                    ::std::mem::transmute::<[u8; #size], #name_ident>([0u8; #size]);
+                }
+                unreachable!()
+            }
+        }
+    });
+
+    let singleton_impl = singleton.map(|address| {
+        quote! {""",
+     """    // Size check functions of equally named types in different modules get distinct names
+    static NAME_IDS: std::sync::Mutex<Vec<String>> = std::sync::Mutex::new(Vec::new());
+    let name_id = {
+        let mut ids = NAME_IDS.lock().unwrap();
+        match ids.iter().position(|n| n == name.as_str()) {
+            Some(i) => i,
+            None => {
+                ids.push(name.as_str().to_string());
+                ids.len() - 1
+            }
+        }
+    };
+    let size_check_ident =
+        quote::format_ident!("_{}_size_check_{}", unraw(name.as_str()), name_id);
+    let size_check_impl = (size > 0).then(|| {
+        let size = hex_literal(size);
+        quote! {
+            fn #size_check_ident() {
+                unsafe {
+                    ::std::mem::transmute::<[u8; #size], #name_ident>([0u8; #size]);
+                }
+                unreachable!()
+            }
+        }
+    });
+
+    let singleton_impl = singleton.map(|address| {
+        quote! {""")]),
   ("c09-pass-limit", ["C09", "C10"], [("src/semantic/semantic_state.rs",
      """        loop {
             let to_resolve = self.type_registry.unresolved();""",
